@@ -1,5 +1,93 @@
-"""R15.4 (allocation bounded by the input present) — filled in with the taint analysis."""
+"""R15.4 heap proportional to the input: (a) input-counted element loops refuse zero-width elements, (b) allocations
+sized by a decoded length are bounded by the input present."""
+from ..engine import Rule
+from ..extract import AnalysisBroken
+from ..model import walk, strip_casts, is_var, const_of, tree_text
+from ..retabs import cond_polarity, dec_returns
+from .. import guards
+from . import common
+
+
+def zero_width_guards(prog, rule, tab):
+    for name in tab["element_loops"]:
+        f = prog.require(name)
+        rets = {(b.id, i): pairs for b, i, e, pairs in dec_returns(f)}
+        loops = f.loops()
+        # member decode calls inside a loop
+        sites = []
+        for b, i, e in f.calls():
+            if e.get("slot") in common.DECODER_SLOTS and "asn_TYPE_operation" in e.get("slot_struct", ""):
+                if any(b.id in body for h, body in loops):
+                    sites.append((b, i, e))
+        if not sites:
+            raise AnalysisBroken("%s: no member decoder call inside a loop" % name)
+        for b, i, e in sites:
+            key = "zero-width:->%s" % e["slot"]
+            # blocks testing `<rv>.consumed == 0`
+            found = None
+            for tb in f.blocks.values():
+                if not tb.term or "cond" not in tb.term or len(tb.succ) < 2:
+                    continue
+                def subj(t):
+                    return isinstance(t, list) and t and t[0] == "member" and t[2] == "consumed"
+                pol = cond_polarity(tb.term["cond"]["tree"], subj)
+                if not pol or "zero" not in pol["true"]:
+                    continue
+                # follow the true-edge chain of further conjuncts to a failing return
+                cur = tb.succ[0]
+                extra = []
+                ok = None
+                hops = 0
+                while cur is not None and hops < 8:
+                    hops += 1
+                    blk = f.blocks[cur]
+                    r_here = [(j, x) for j, x in enumerate(blk.ev) if x["k"] == "return"]
+                    if r_here:
+                        codes = {c for c, _k in rets.get((cur, r_here[0][0]), ())}
+                        ok = codes == {"FAIL"}
+                        break
+                    live = blk.succs()
+                    if blk.term and "cond" in blk.term and len(blk.succ) >= 2 and len(live) >= 2 and const_of(blk.term["cond"]["tree"]) is None:
+                        extra.append(blk.term["cond"]["tree"])
+                        cur = blk.succ[0]
+                    else:
+                        ss = blk.succs()
+                        cur = ss[0] if len(ss) == 1 else None
+                if ok:
+                    found = (tb, extra)
+                    break
+            if found is None:
+                rule.bad(f, key, "no failing exit conditioned on the element having consumed nothing: a count taken from the input times a zero-width "
+                                 "element type allocates without bound (decompression bomb)", e["line"])
+                continue
+            tb, extra = found
+            badc = None
+            for c in extra:
+                t = strip_casts(c)
+                allowed = False
+                if isinstance(t, list) and t[0] == "bin" and t[1] in (">", ">=") and const_of(t[3]) is not None:
+                    allowed = True       # element-count threshold
+                if isinstance(t, list) and t[0] == "bin" and t[1] == "==" and all(
+                        isinstance(strip_casts(x), list) and strip_casts(x)[0] in ("var",) for x in (t[2], t[3])):
+                    allowed = True       # cursor not advanced: base_ptr == ptr
+                if not allowed:
+                    badc = c
+            if badc is None:
+                rule.ok(f, key, "zero-width elements end in RC_FAIL once the count threshold is passed (conjuncts: %s)" % ", ".join(tree_text(x) for x in extra), tb.term.get("line"))
+            else:
+                rule.bad(f, key, "the zero-width guard is weakened by the extra condition `%s`: when it is false the element loop allocates "
+                                 "without consuming input" % tree_text(badc), tb.term.get("line"))
 
 
 def run_config(prog, tab, cfg):
-    return []
+    r = Rule("R15.4", "decoders hold heap proportional to the input: zero-width elements are refused in input-counted loops; "
+                      "allocations sized by a decoded length are bounded by the input present", floor=2 if cfg == "default" else 0)
+    tab2 = dict(tab)
+    loops = [n for n in tab["element_loops"] if prog.func(n) is not None]
+    tab2["element_loops"] = loops
+    zero_width_guards(prog, r, tab2)
+    from . import c15_taint
+    c15_taint.alloc_rule(prog, r, tab)
+    for i in r.insts:
+        i.config = cfg
+    return [r]
